@@ -50,7 +50,12 @@ def structure_case(draw, tier):
             # that are falsy without being None
             "values": draw(st.sampled_from(["token", "token", "depth", "falsy"])),
             # the same callback objects are first used on another tree (a decoy), then on this one
-            "reuse": draw(st.integers(0, 3)) == 0}
+            "reuse": draw(st.integers(0, 3)) == 0,
+            # Tree entry points: the tree object was traversed before, then one node was re-parented in place through a
+            # node handle (attribute or item assignment), or a copy taken after the first traversal was re-parented;
+            # the case's parent table is the table after the edit
+            "edit": draw(st.sampled_from([None, None, None, "node.pid", "item", "copy-then-node.pid"])),
+            "edit_sel": [draw(st.integers(0, 10 ** 6)), draw(st.integers(0, 10 ** 6))]}
 
 
 def _tree_of(parents):
@@ -60,7 +65,23 @@ def _tree_of(parents):
     return Tree(n, id=np.arange(n, dtype=np.int32), pid=np.array(parents, dtype=np.int32))
 
 
-def _run_traverse(parents, start, mode, entry, enter, leave, current=None):
+def _before_edit(parents, sel):
+    """The table the tree had before one node was re-parented: (old table, node, its parent now) or None."""
+    n = len(parents)
+    movable = [i for i in range(n) if parents[i] != -1]
+    if not movable:
+        return None
+    a = movable[sel[0] % len(movable)]
+    below = models.descendants_or_self(parents, a)
+    cands = [j for j in range(n) if j not in below and j != parents[a]]
+    if not cands:
+        return None
+    old = list(parents)
+    old[a] = cands[sel[1] % len(cands)]
+    return old, a, parents[a]
+
+
+def _run_traverse(parents, start, mode, entry, enter, leave, current=None, edit=None, edit_sel=None, decoy_cb=None):
     from swcgeom.core.swc_utils import traverse
 
     kw = {}
@@ -73,6 +94,19 @@ def _run_traverse(parents, start, mode, entry, enter, leave, current=None):
         topo = (np.arange(n, dtype=np.int32), np.array(parents, dtype=np.int32))
         return traverse(topo, root=start, **kw)
     tree = _tree_of(parents)
+    prior = _before_edit(parents, edit_sel) if edit else None
+    if prior is not None:
+        old, a, b = prior
+        tree = _tree_of(old)
+        if decoy_cb:
+            decoy_cb(lambda: tree.traverse(**kw) if entry == "tree" else tree.node(0).traverse(**kw))
+        if edit == "copy-then-node.pid":
+            tree = tree.copy()
+            tree.node(a).pid = b
+        elif edit == "item":
+            tree.node(a)["pid"] = b
+        else:
+            tree.node(a).pid = b
     if current is not None:
         current[0] = tree
     if entry == "tree":
@@ -157,7 +191,20 @@ def run_structure(case, ctx):
         _run_traverse(decoy, 0, mode, entry, enter, leave)
         live[0] = True
         ctx.cls("callbacks-reused-from-another-tree")
-    ret = _run_traverse(parents, start, mode, entry, enter, leave, current)
+    edited = [False]
+
+    def decoy_run(fn):
+        live[0] = False
+        try:
+            fn()
+        finally:
+            live[0] = True
+        edited[0] = True
+
+    ret = _run_traverse(parents, start, mode, entry, enter, leave, current, edit=case.get("edit") if entry != "swc_utils" else None,
+                        edit_sel=case.get("edit_sel"), decoy_cb=decoy_run)
+    if edited[0]:
+        ctx.cls("tree-re-parented-in-place-after-a-first-traversal", "edit:" + case["edit"])
     ctx.check(not order_err, "exactly-once", lambda: "; ".join(order_err[:3]))
     if mode in ("enter", "both"):
         ctx.check(set(entered) == sub, "enter/visits-exactly-the-subtree",
@@ -263,7 +310,8 @@ SUBCHECKS = [
         required={"entry:swc_utils": 50, "entry:tree": 50, "entry:node": 50, "mode:both": 100,
                   "permuted": 100, "start-not-root": 200, "shape:chain": 20, "shape:star": 20,
                   "leave-callback-mutates-its-argument:append": 100, "leave-callback-mutates-its-argument:clear": 100,
-                  "enter-returns:depth": 100, "enter-returns:falsy": 100, "callbacks-reused-from-another-tree": 100}),
+                  "enter-returns:depth": 100, "enter-returns:falsy": 100, "callbacks-reused-from-another-tree": 100,
+                  "tree-re-parented-in-place-after-a-first-traversal": 300, "edit:item": 60, "edit:copy-then-node.pid": 60}),
     Sub("deep", deep_case, run_deep, quick=24, thorough=96, shards_quick=4,
         required={"limited-recursion": 4, "deep:chain": 2, "deep:caterpillar": 2}),
 ]
